@@ -225,6 +225,10 @@ Proof.
   - rewrite <- (n_is_valid_fold (n_parse s1)), <- (n_is_valid_fold (n_parse s2)), E. reflexivity.
 Qed.
 
+Lemma b_manifest_path_invalid dir links name :
+  n_is_fq (n_parse name) = false -> b_manifest_path dir links name = Err EInvalidName.
+Proof. intro H. unfold b_manifest_path, b_name_to_path. cbv zeta. rewrite H. reflexivity. Qed.
+
 (** the string-level statement for the blob cache *)
 Lemma b_manifest_path_cv dir links s1 s2 :
   cv s1 s2 ->
@@ -248,8 +252,8 @@ Proof.
     destruct (link_lookup links h2 n2 m2 t2) as [l|] eqn:El.
     + right; left. exists l. split; [|split; reflexivity]. unfold link_lookup in El. apply find_some in El as [Hin _]. exact Hin.
     + right; right. exists h1, n1, m1, t1, h2, n2, m2, t2.
-      repeat split; try assumption; try reflexivity. rewrite (link_lookup_cv links _ _ _ _ _ _ _ _ Hcv). exact El.
-  - left. unfold b_manifest_path, b_name_to_path. cbv zeta. rewrite E1, E2, Hfq, F2. split; reflexivity.
+      split; [exact P1|]. split; [exact P2|]. split; [exact Hcv|]. split; [exact El|]. split; [exact El|]. split; reflexivity.
+  - left. split; apply b_manifest_path_invalid; [rewrite E1|rewrite E2]; assumption.
 Qed.
 
 (** * DisplayShortest *)
